@@ -18,9 +18,9 @@ import (
 	"errors"
 	"fmt"
 	"io"
+	"math/bits"
 	"net"
 	"os"
-	"path/filepath"
 	"sort"
 	"strings"
 	"sync"
@@ -35,7 +35,6 @@ import (
 	"github.com/foxcpp/maddy/framework/config"
 	"github.com/foxcpp/maddy/framework/log"
 	"github.com/foxcpp/maddy/framework/module"
-	checkdkim "github.com/foxcpp/maddy/internal/check/dkim"
 	moddkim "github.com/foxcpp/maddy/internal/modify/dkim"
 	"github.com/foxcpp/maddy/internal/target/queue"
 	"github.com/foxcpp/maddy/internal/target/remote"
@@ -133,62 +132,20 @@ type harness struct {
 	t        *testing.T
 	r        *rep.Reporter
 	keyRoot  string
-	signers  map[string]*moddkim.Modifier // algo/hc/bc
-	resolver map[string]*keyResolver      // per algo (the same name carries a different key per algo)
-	checks   map[string]*checkdkim.Check  // per algo
+	signers  map[string]*moddkim.Modifier // by configuration text (cfg_test.go), created on first use
+	keysets  map[string]*keyset           // key type / key-file layout -> zone with the published records + check.dkim
 }
 
 func newHarness(t *testing.T, r *rep.Reporter) *harness {
-	h := &harness{t: t, r: r, signers: map[string]*moddkim.Modifier{}, resolver: map[string]*keyResolver{}, checks: map[string]*checkdkim.Check{}}
+	h := &harness{t: t, r: r, signers: map[string]*moddkim.Modifier{}, keysets: map[string]*keyset{}}
 	root, err := os.MkdirTemp("", "c08keys")
 	if err != nil {
 		t.Fatal(err)
 	}
 	h.keyRoot = root
-	var domArgs []string
-	for _, d := range signDomains {
-		domArgs = append(domArgs, d.U)
-	}
-	for _, algo := range algos {
-		dir := filepath.Join(root, algo)
-		// One key file per key type, shared by the signing domains (the first Init
-		// generates it, the others load it): RSA key generation is the dominant
-		// start-up cost and says nothing about the property.
-		for _, hc := range canons {
-			for _, bc := range canons {
-				for _, fs := range fieldsets {
-					mod, err := moddkim.New("modify.dkim", "c08-"+algo+"-"+hc+"-"+bc+"-"+fs.Name, nil, nil)
-					if err != nil {
-						t.Fatal(err)
-					}
-					cfg := fmt.Sprintf("domains %s\nselector %s\nkey_path %s/shared_{selector}.key\nnewkey_algo %s\nheader_canon %s\nbody_canon %s\n%s",
-						strings.Join(domArgs, " "), selector, dir, algo, hc, bc, fs.Config)
-					if err := mx.InitModule(mod, cfg, nil); err != nil {
-						t.Fatalf("c08: modify.dkim init: %v", err)
-					}
-					h.signers[algo+"/"+hc+"/"+bc+"/"+fs.Name] = mod.(*moddkim.Modifier)
-				}
-			}
-		}
-		kr := &keyResolver{txt: map[string][]string{}}
-		b, err := os.ReadFile(filepath.Join(dir, "shared_"+selector+".dns"))
-		if err != nil {
-			t.Fatalf("c08: published key record missing: %v", err)
-		}
-		for _, d := range signDomains {
-			kr.txt[dnsKey(selector+"._domainkey."+d.A)] = []string{string(b)}
-		}
-		h.resolver[algo] = kr
-		cm, err := checkdkim.New("check.dkim", "c08check-"+algo, nil, nil)
-		if err != nil {
-			t.Fatal(err)
-		}
-		if err := mx.InitModule(cm, "", nil); err != nil {
-			t.Fatalf("c08: check.dkim init: %v", err)
-		}
-		checkdkim.VerifSetResolver(cm.(*checkdkim.Check), kr)
-		h.checks[algo] = cm.(*checkdkim.Check)
-	}
+	// modify.dkim instances, their keys (generated by the modifier itself), the
+	// zones publishing the .dns records and the check.dkim instances are created
+	// on first use: see signerFor / keysetFor in cfg_test.go.
 	return h
 }
 
@@ -206,7 +163,7 @@ type scenario struct {
 	Srv8Bit      bool
 	SrvUTF8      bool
 	SrvPipe      bool
-	Big          bool
+	BigBody      bool
 	Fields       string // fieldset name
 	Latin1Header bool   // non-conformant 8-bit header bytes: observed, never judged
 	ForeignSig   bool   // an unverifiable signature of an earlier hop is already present
@@ -217,6 +174,20 @@ type scenario struct {
 	// header-write-error (a field the serialiser refuses sits below the others).
 	Fault         string
 	FaultPerMille int
+	// Signer configuration (cfg_test.go), drawn from a separate stream.
+	Family      string   // shared-key, per-domain-keys, subdomains (sign_subdomains yes, Domain is the one configured domain)
+	KeyFormat   string   // existing-key-file: pkcs8 / pkcs1
+	Selector    string
+	Inline      bool     // domains and selector given as inline arguments
+	Extra       []string // further directives
+	SubDepth    int      // subdomains: labels in front of the configured domain in the envelope sender
+	SubSpelling string   // subdomains: as-configured / differs-from-config (A-labels or upper case)
+	FailCount   int      // scripted temporary failures before the next hop accepts (0 = 1)
+	// Very large header / body (big_test.go)
+	Big        *bigPlan
+	BigBodyLen int // quick-tier big body: exact body size in octets (0 = body as generated)
+
+	ks *keyset
 }
 
 func (s scenario) shape(m *message) string {
@@ -227,7 +198,20 @@ func (s scenario) shape(m *message) string {
 		}
 	}
 	sort.Strings(fs)
-	return fmt.Sprintf("%s/%s/%s/%s/eai=%v/%s/%s/%s/%s/fault=%s/%s", s.Algo, s.HC, s.BC, s.Fields, s.EAI, s.Domain.Kind, s.Variant, s.FailStage, s.Target, s.Fault, strings.Join(fs, ","))
+	cfg := fmt.Sprintf("%s%s/sel=%s/inline=%v/%s", s.Family, s.KeyFormat, s.Selector, s.Inline, strings.Join(s.Extra, ";"))
+	if s.Family == famSubdomains {
+		cfg += fmt.Sprintf("/depth=%d/%s", s.SubDepth, s.SubSpelling)
+	}
+	if s.Big != nil {
+		cfg += "/big=" + s.Big.Class + "/" + s.Big.Mode
+	}
+	if s.BigBodyLen > 0 {
+		cfg += fmt.Sprintf("/bigbody=2^%d", bits.Len(uint(s.BigBodyLen))-1)
+	}
+	if s.FailCount > 1 {
+		cfg += "/two-failures"
+	}
+	return fmt.Sprintf("%s/%s/%s/%s/eai=%v/%s/%s/%s/%s/fault=%s/%s/%s", s.Algo, s.HC, s.BC, s.Fields, s.EAI, s.Domain.Kind, s.Variant, s.FailStage, s.Target, s.Fault, cfg, strings.Join(fs, ","))
 }
 
 func genScenario(p *prng.R, i int, thorough bool) scenario {
@@ -273,7 +257,7 @@ func genScenario(p *prng.R, i int, thorough bool) scenario {
 	s.Srv8Bit = p.Bool()
 	s.SrvUTF8 = s.EAI || p.Bool()
 	s.SrvPipe = p.Bool()
-	s.Big = thorough && p.Chance(1, 25)
+	s.BigBody = thorough && p.Chance(1, 25)
 	s.Latin1Header = !s.EAI && p.Chance(1, 12)
 	s.ForeignSig = p.Chance(1, 8)
 	if !s.EAI && p.Chance(1, 15) {
@@ -323,7 +307,7 @@ func classify(err error) string {
 
 // verifyLib: go-msgauth verifier, TXT lookup injected.
 func (h *harness) verifyLib(payload []byte, sc *scenario, wantDomain string) verdict {
-	kr := h.resolver[sc.Algo]
+	kr := sc.ks.res
 	vs, err := msgauthdkim.VerifyWithOptions(bytes.NewReader(payload), &msgauthdkim.VerifyOptions{
 		LookupTXT: func(domain string) ([]string, error) { return kr.LookupTXT(context.Background(), domain) },
 	})
@@ -353,7 +337,7 @@ func (h *harness) verifyMaddy(payload []byte, sc *scenario, wantDomain string) v
 	}
 	var body bytes.Buffer
 	body.ReadFrom(br)
-	chk := h.checks[sc.Algo]
+	chk := sc.ks.check
 	meta := &module.MsgMetadata{ID: "c08verify"}
 	meta.SMTPOpts.UTF8 = sc.EAI
 	st, err := chk.CheckStateForMsg(context.Background(), meta)
@@ -577,7 +561,43 @@ func (h *harness) runCase(c *rep.Case, i int) {
 	r := h.r
 	p := prng.New(r.Seed(), uint64(i), "c08")
 	sc := genScenario(p, i, r.Thorough())
-	msg := genMessage(p, sc.EAI, sc.Big, sc.Latin1Header, sc.ForeignSig)
+	// configuration and size dimensions come from their own streams: the
+	// message and delivery dimensions of case i are what they were before
+	sizeCase := i%bigEvery == bigPhase || i%bigBodyEvery == bigBodyPhase
+	if sizeCase {
+		// the few multi-megabyte cases are always judged
+		sc.Latin1Header = false
+	}
+	extendScenario(&sc, prng.New(r.Seed(), uint64(i), "c08cfg"), i, sizeCase)
+	qb := prng.New(r.Seed(), uint64(i), "c08big")
+	if sc.Big = bigPlanFor(i, qb); sc.Big != nil {
+		// always a variant that re-reads the header from the spool
+		sc.Variant = bigVariants[(i/bigEvery)%len(bigVariants)]
+		if sc.Variant != "restart-before-first-attempt" && sc.FailStage == "" {
+			sc.FailStage = prng.Pick(qb, []string{"mail", "rcpt", "data", "dot", "dot"})
+		}
+		if sc.Variant == "restart-before-first-attempt" {
+			sc.FailStage = ""
+		}
+	}
+	if sc.FailStage != "" && qb.Chance(1, 5) {
+		sc.FailCount = 2 // the header is re-read from the spool more than once
+	}
+	msg := genMessage(p, sc.EAI, sc.BigBody, sc.Latin1Header, sc.ForeignSig)
+	if sc.BigBodyLen = bigBodyLenFor(i, qb); sc.BigBodyLen > 0 {
+		inflateBody(qb, msg, &sc.BigBodyLen)
+	}
+	if sc.Big != nil {
+		if !inflate(qb, msg, sc.EAI, sc.Big, fieldsetByName(sc.Fields)) {
+			r.Count("big_header_generator_missed_target", 1)
+			c.Inconclusive(fmt.Sprintf("big-header generator missed its target size (%d, got %d)", sc.Big.Target, len(msg.Header)+2))
+			c.Done(sc.shape(msg), false)
+			return
+		}
+	}
+	if n := maxPhysicalLine(msg.Header); n > maxLine {
+		h.t.Fatalf("c08: harness bug: generated header line of %d octets", n)
+	}
 	shape := sc.shape(msg)
 	var feats []string
 	for f, on := range msg.Features {
@@ -588,6 +608,9 @@ func (h *harness) runCase(c *rep.Case, i int) {
 	}
 	sort.Strings(feats)
 	w := caseWitness{Scenario: sc, Fields: msg.Fields, Features: feats}
+	if len(w.Fields) > 80 {
+		w.Fields = append([]string{fmt.Sprintf("...[%d fields above]", len(msg.Fields)-80)}, msg.Fields[len(msg.Fields)-80:]...)
+	}
 	ctx := context.Background()
 
 	hdr, err := textproto.ReadHeader(bufio.NewReader(bytes.NewReader(append(append([]byte{}, msg.Header...), '\r', '\n'))))
@@ -603,7 +626,8 @@ func (h *harness) runCase(c *rep.Case, i int) {
 	// --- sign ---
 	meta := &module.MsgMetadata{ID: fmt.Sprintf("c08m%d", i), OriginalFrom: sc.Sender, DontTraceSender: true}
 	meta.SMTPOpts.UTF8 = sc.EAI
-	signer := h.signers[sc.Algo+"/"+sc.HC+"/"+sc.BC+"/"+sc.Fields]
+	signer, ks := h.signerFor(&sc)
+	sc.ks = ks
 	st, err := signer.ModStateForMsg(ctx, meta)
 	if err != nil {
 		h.t.Fatalf("c08: ModStateForMsg: %v", err)
@@ -619,7 +643,19 @@ func (h *harness) runCase(c *rep.Case, i int) {
 	st.Close()
 	sigField := hdr.Get("DKIM-Signature") // Get returns the top-most field, which is where AddRaw puts the new one
 	if sigField == "" || (sc.ForeignSig && strings.Contains(sigField, "d=gone.example")) {
-		c.Violation("sign/no-signature-added/domain="+sc.Domain.Kind+fmt.Sprintf("/eai=%v", sc.EAI), "modify.dkim added no signature for sender "+sc.Sender, w)
+		if sc.Family == famSubdomains && sc.SubDepth > 0 && sc.SubSpelling != "as-configured" {
+			// A subdomain sender whose spelling of the configured domain differs
+			// from the configuration (A-labels / upper case) is left unsigned by
+			// sign_subdomains: not a signed message, nothing of C08 to judge.
+			r.Count("observed_subdomain_sender_spelled_differently_not_signed", 1)
+			c.Done(shape, false)
+			return
+		}
+		sig := "sign/no-signature-added/domain=" + sc.Domain.Kind + fmt.Sprintf("/eai=%v", sc.EAI)
+		if sc.Family == famSubdomains && sc.SubDepth > 0 {
+			sig = "sign/no-signature-added/sign_subdomains/subdomain-sender/domain=" + sc.Domain.Kind + fmt.Sprintf("/eai=%v", sc.EAI)
+		}
+		c.Violation(sig, "modify.dkim added no signature for sender "+sc.Sender, w)
 		c.Done(shape, true)
 		return
 	}
@@ -631,22 +667,47 @@ func (h *harness) runCase(c *rep.Case, i int) {
 	signedBuf.Write(msg.Body)
 	signed := signedBuf.Bytes()
 
+	signedHdrLen := len(signed) - len(msg.Body) // = size of the spooled .header file
+	bigClass := ""
+	if sc.Big != nil {
+		unsignedLen := len(msg.Header) + 2
+		switch {
+		case unsignedLen < mib && signedHdrLen > mib:
+			bigClass = "crossed-1MiB-by-signature"
+		case signedHdrLen > mib:
+			bigClass = "over-1MiB"
+		default:
+			bigClass = "under-1MiB"
+		}
+	}
+
 	baseline := h.verifyLib(signed, &sc, wantD)
 	if baseline.Pass {
 		r.Count("baseline_in_memory_verifies", 1)
 	}
 
 	// --- next hop ---
-	var failOnce sync.Once
+	var failMu sync.Mutex
+	failsLeft := sc.FailCount
+	if failsLeft == 0 {
+		failsLeft = 1
+	}
 	failed := make(chan struct{})
 	script := func(ev smtpd.Event) *smtpd.Action {
-		// exactly one scripted failure: the first time the stage is reached
-		// (a pooled connection of target.remote may carry the second attempt too)
+		// the scripted failures: the first FailCount times the stage is reached
+		// (a pooled connection of target.remote may carry the next attempt too)
 		if sc.FailStage == "" || string(ev.Stage) != sc.FailStage {
 			return nil
 		}
-		fire := false
-		failOnce.Do(func() { fire = true; close(failed) })
+		failMu.Lock()
+		fire := failsLeft > 0
+		if fire {
+			if failsLeft == sc.FailCount || sc.FailCount == 0 {
+				close(failed)
+			}
+			failsLeft--
+		}
+		failMu.Unlock()
 		if !fire {
 			return nil
 		}
@@ -676,7 +737,7 @@ func (h *harness) runCase(c *rep.Case, i int) {
 	if sc.Target == "remote" {
 		addr := srv.Addr()
 		rt, err := remote.VerifNewTarget(remote.VerifTargetOpts{
-			Name: inst, Hostname: "mx.verif.example", Resolver: h.resolver[sc.Algo],
+			Name: inst, Hostname: "mx.verif.example", Resolver: sc.ks.res,
 			Dialer: func(ctx context.Context, network, _ string) (net.Conn, error) {
 				return (&net.Dialer{}).DialContext(ctx, "tcp", addr)
 			},
@@ -752,7 +813,7 @@ func (h *harness) runCase(c *rep.Case, i int) {
 	case "restart-after-failed-attempt":
 		retry1 = time.Hour
 	}
-	q1, err := queue.VerifNewQueue(queue.VerifOpts{Dir: dir, Target: q1Target, MaxTries: 4, InitialRetryTime: retry1, Log: qlogger})
+	q1, err := queue.VerifNewQueue(queue.VerifOpts{Dir: dir, Target: q1Target, MaxTries: 6, InitialRetryTime: retry1, Log: qlogger})
 	if err != nil {
 		h.t.Fatalf("c08: queue: %v", err)
 	}
@@ -838,7 +899,7 @@ func (h *harness) runCase(c *rep.Case, i int) {
 	switch sc.Variant {
 	case "direct", "retry":
 	case "restart-before-first-attempt":
-		q2, err = queue.VerifNewQueue(queue.VerifOpts{Dir: dir, Target: tgt, MaxTries: 4, Log: qlogger})
+		q2, err = queue.VerifNewQueue(queue.VerifOpts{Dir: dir, Target: tgt, MaxTries: 6, Log: qlogger})
 	case "restart-after-failed-attempt":
 		// the first instance has written the updated meta-data when it logs "will retry"
 		ok := waitFor("first attempt did not fail as scripted", func() bool {
@@ -853,7 +914,7 @@ func (h *harness) runCase(c *rep.Case, i int) {
 			c.Done(shape, false)
 			return
 		}
-		q2, err = queue.VerifNewQueue(queue.VerifOpts{Dir: dir, Target: tgt, MaxTries: 4, Log: qlogger})
+		q2, err = queue.VerifNewQueue(queue.VerifOpts{Dir: dir, Target: tgt, MaxTries: 6, Log: qlogger})
 	}
 	if err != nil {
 		h.t.Fatalf("c08: second queue instance: %v", err)
@@ -910,6 +971,44 @@ func (h *harness) runCase(c *rep.Case, i int) {
 	}
 	r.Count("variant_"+sc.Variant, 1)
 	r.Count("target_"+sc.Target, 1)
+	r.Count("family_"+sc.Family, 1)
+	if sc.KeyFormat != "" {
+		r.Count("existing_key_file_"+sc.Algo+"_"+sc.KeyFormat, 1)
+	}
+	r.Count("selector_"+sc.Selector, 1)
+	r.Count("newkey_algo_"+sc.Algo, 1)
+	if sc.Inline {
+		r.Count("config_inline_arguments", 1)
+	}
+	for _, e := range sc.Extra {
+		r.Count("directive_"+strings.Fields(e)[0], 1)
+	}
+	if sc.Family == famSubdomains && !sc.NullSender {
+		r.Count(fmt.Sprintf("subdomains_sender_depth_%d_%s", sc.SubDepth, sc.SubSpelling), 1)
+		if sc.SubDepth > 0 {
+			r.Count("subdomains_sender_in_subdomain_signed", 1)
+		}
+	}
+	if sc.Family == famPerDomain {
+		r.Count("per_domain_key_"+sc.Domain.Kind, 1)
+	}
+	if sc.FailCount > 1 {
+		r.Count("deliveries_after_two_scripted_failures", 1)
+	}
+	if sc.BigBodyLen > 0 {
+		r.Count("big_body_payloads", 1)
+		if sc.BigBodyLen > mib {
+			r.Count("big_body_over_1MiB", 1)
+		}
+	}
+	if sc.Big != nil {
+		// every big-header case takes a variant in which the delivered header was
+		// re-read from the spool
+		r.Count("big_header_payloads_after_spool_reload", 1)
+		r.Count("big_header_"+bigClass, 1)
+		r.Count("big_header_mode_"+sc.Big.Mode, 1)
+		r.Distinct("big_header_classes", sc.Big.Class)
+	}
 	r.Count(fmt.Sprintf("combo_%s_%s_%s", sc.Algo, sc.HC, sc.BC), 1)
 	r.Count("fieldset_"+sc.Fields, 1)
 	if sc.EAI {
@@ -962,7 +1061,9 @@ func (h *harness) runCase(c *rep.Case, i int) {
 		if !baseline.Pass {
 			base = "baseline-fails-too"
 		}
-		if sc.Fault != "" || !last {
+		if (sc.Fault != "" && !(last && diffClass == "identical")) || !last {
+			// (a final commit that carries exactly the signed bytes and still does
+			// not verify was not damaged by the fault: reported below)
 			// A fault on the way (or an attempt that was not the final one)
 			// must leave nothing committed; what IS committed must be the signed message.
 			cause := "no-fault-injected"
@@ -998,14 +1099,19 @@ func (h *harness) runCase(c *rep.Case, i int) {
 	r.Count("untampered_verified_by_both", 1)
 
 	// --- tamper drills ---
-	h.tamper(c, p, &sc, payload, wantD, &w)
+	budget := -1
+	if sc.Big != nil || sc.BigBodyLen > 0 {
+		budget = 4 // multi-megabyte copies: a sample of the drills only
+	}
+	h.tamper(c, p, &sc, payload, wantD, &w, budget)
 	if i < 4 {
 		r.Sample(map[string]any{"scenario": sc, "features": feats, "signature": sigField, "payload_bytes": len(payload)})
 	}
 	c.Done(shape, true)
 }
 
-func (h *harness) tamper(c *rep.Case, p *prng.R, sc *scenario, payload []byte, wantD string, w *caseWitness) {
+// budget: maximum number of tampered copies to verify (negative = all).
+func (h *harness) tamper(c *rep.Case, p *prng.R, sc *scenario, payload []byte, wantD string, w *caseWitness, budget int) {
 	r := h.r
 	fields, body, ok := splitPayload(payload)
 	if !ok {
@@ -1035,12 +1141,7 @@ func (h *harness) tamper(c *rep.Case, p *prng.R, sc *scenario, payload []byte, w
 	}
 	// Which fields are "signed" / "over-signed": what the signer was configured
 	// to do, plus whatever the signature itself names in h=.
-	var fsCfg fieldset
-	for _, f := range fieldsets {
-		if f.Name == sc.Fields {
-			fsCfg = f
-		}
-	}
+	fsCfg := fieldsetByName(sc.Fields)
 	inH := map[string]int{}
 	for _, k := range keys {
 		inH[k]++
@@ -1077,6 +1178,10 @@ func (h *harness) tamper(c *rep.Case, p *prng.R, sc *scenario, payload []byte, w
 		note(k, inH[k] > len(present(k)))
 	}
 	check := func(kind, key string, over bool, mutated []byte) {
+		if budget == 0 {
+			return
+		}
+		budget--
 		r.Count("tamper_"+kind, 1)
 		lib := h.verifyLib(mutated, sc, wantD)
 		mad := h.verifyMaddy(mutated, sc, wantD)
@@ -1103,7 +1208,15 @@ func (h *harness) tamper(c *rep.Case, p *prng.R, sc *scenario, payload []byte, w
 				fmt.Sprintf("%s of %s field %q at the next hop still verifies (h= names it %d times, message has %d; go-msgauth: %s; check.dkim: %s)", kind, cls, key, inH[key], len(present(key)), lib.Detail, mad.Detail), ww)
 		}
 	}
+	if budget > 0 && len(order) > 1 {
+		// a sample: start at a random field
+		o := p.Intn(len(order))
+		order = append(append([]string(nil), order[o:]...), order[:o]...)
+	}
 	for _, k := range order {
+		if budget == 0 {
+			break
+		}
 		idxs := present(k)
 		n := len(idxs)
 		over := wants[k].over
@@ -1166,7 +1279,14 @@ func TestVerif(t *testing.T) {
 	h := newHarness(t, r)
 	defer os.RemoveAll(h.keyRoot)
 	n := r.N(800, 10000)
+	only := -1 // C08_ONLY=<index>: debugging aid, runs one case of the tier
+	if v := os.Getenv("C08_ONLY"); v != "" {
+		fmt.Sscan(v, &only)
+	}
 	for i := 0; i < n; i++ {
+		if only >= 0 && i != only {
+			continue
+		}
 		r.Run(i, fmt.Sprintf("msg-%d", i), func(c *rep.Case) { h.runCase(c, i) })
 	}
 }
